@@ -21,7 +21,42 @@ AX = {
 SERIAL_ONLY = 'parallel_handlers=True buses: the task-per-handler branch of _execute_handlers is outside the translator (tasks stored in a dict); the contracts require a serial bus, the parallel branch is NOT verified'
 HANDLER_MODEL = 'handlers are arbitrary user code: may call any public API, suspend, return anything, raise any Exception or CancelledError'
 
+AWAIT_TB = [AX[k] for k in ('A1', 'A5', 'A6', 'A7', 'A8', 'A10', 'X1', 'X2')] + [SERIAL_ONLY,
+    'every bus is a serial bus (pre-condition of the awaiting coroutine, since it may process any bus\'s queue)',
+    'A5\': with every task balancing its task_done() calls, a queue\'s unfinished count is never below its size',
+    'rely while suspended: completion signals are never cleared or replaced, queues are never replaced, terminal results are frozen']
+
 PROPERTIES = {
+    'C02': {
+        'functions': ['BaseEvent.__await__.wait', 'CleanShutdownQueue.put_nowait', 'CleanShutdownQueue.get_nowait', 'EventBus.dispatch', 'EventBus._get_next_event', 'EventBus.step',
+                      'EventBus._start', 'EventBus.cleanup_event_history', 'EventBus._run_loop', 'EventBus.process_event'],
+        'level': 'other',
+        'trusted_base': AWAIT_TB + ['asyncio.Queue is FIFO (A5); CleanShutdownQueue.get() (the blocking variant used by the run loop) is the base class get + shutdown test: assumed, only get_nowait/put_nowait are verified against A5'],
+        'not_decided': ['"does not start a later event while an earlier handler runs" is C06 (process_event only under the global lock) plus: the only callers of process_event are step() and the inline loop'],
+        'assumptions': [],
+    },
+    'C03': {
+        'functions': ['BaseEvent.__await__.wait', 'EventBus.process_event', 'CleanShutdownQueue.get_nowait', 'BaseEvent.event_completed_signal', 'BaseEvent.event_mark_complete_if_all_handlers_completed', 'BaseEvent.event_are_all_children_complete', 'BaseEvent.event_children'] + ['BaseEvent.event_completed_at', 'BaseEvent.event_status'],
+        'level': 'other',
+        'trusted_base': AWAIT_TB + ['event_are_all_children_complete / event_children: one-level contracts assumed (recursive walk not verified)'],
+        'not_decided': ['"always returns" and "the waiter is released without further stimulus" are liveness; the converse direction (completion propagates up the ancestor chain, finding F11) is not under contract: '
+                        'process_event\'s parent walk over bus histories is executed but no post-condition about ancestors is stated'],
+        'assumptions': [],
+    },
+    'C04': {
+        'functions': ['BaseEvent.__await__.wait', 'EventBus.process_event', 'CleanShutdownQueue.get_nowait', 'BaseEvent.event_completed_signal', 'BaseEvent.event_mark_complete_if_all_handlers_completed', 'BaseEvent.event_are_all_children_complete', 'BaseEvent.event_children'] + ['ReentrantLock.__aenter__', 'ReentrantLock.__aexit__'],
+        'level': 'other',
+        'trusted_base': AWAIT_TB,
+        'not_decided': ['deadlock freedom as such (liveness); decided: the handler branch never takes the lock nor calls step(), and what it returns'],
+        'assumptions': [],
+    },
+    'C05': {
+        'functions': ['BaseEvent.__await__.wait', 'EventBus.process_event', 'CleanShutdownQueue.get_nowait'],
+        'level': 'other',
+        'trusted_base': AWAIT_TB + ['`descends_from(a, b)` (a is a transitive child of b) is uninterpreted: nothing in the code establishes it for a dequeued head, which is the finding'],
+        'not_decided': ['the split of F0 into queued-before / queued-later witnesses (DESIGN.md) is not implemented: any worsening at this call site is the same finding'],
+        'assumptions': [],
+    },
     'C15': {
         'functions': ['EventBus.wait_until_idle', 'EventBus.step', 'EventBus._get_next_event', 'EventBus._run_loop', 'EventBus.dispatch', 'EventBus._start',
                       'CleanShutdownQueue.put_nowait', 'CleanShutdownQueue.get_nowait', 'EventBus.events_pending', 'EventBus.events_started', 'EventBus.process_event'],
